@@ -186,6 +186,19 @@ def gen_history(r, index, e1_pool, family=None):
     if r.random() < (0.6 if family == "forms" else 0.3):
         first = s["times"][0]
         s["t0"] = r.choice([round(first * r.uniform(0.2, 0.8), 3), round(first * r.uniform(0.2, 0.8), 3), -1.0])
+    # replicate observations (a time observed twice or three times) and grids far from the time origin (both signs; the models of
+    # gen_setup are autonomous, the reference integrates in the real time all the same)
+    c = r.random()
+    if c < 0.15:
+        for _ in range(r.randint(1, 2)):
+            k = r.randrange(len(s["times"]))
+            s["times"] = s["times"][:k + 1] + [s["times"][k]] + s["times"][k + 1:]
+        s["replicates"] = True
+    if 0.1 < c < 0.25:
+        shift = r.choice([738000.0, -738000.0, 10000.0, -10000.0, 1.0e6])
+        s["t0"] = float(s["t0"]) + shift
+        s["times"] = [float(v) + shift for v in s["times"]]
+        s["far"] = True
     sc = lambda lo, hi: r.uniform(lo, hi)
     pts = {"A": list(s["theta_eval"]), "B": [round(v * sc(0.8, 1.25), 4) for v in s["theta_true"]],
            "U": [round(v * sc(0.85, 1.2), 4) for v in s["theta_true"]],
@@ -376,7 +389,9 @@ def execute(case, judge, judged_fns):
     state), ctx, got).  Returns dict(nontrivial, violations, mismatches, tags, margins)"""
     s = case["setup"]
     viol, tags, mism = [], [], []
-    tags += ["history:" + case["family"], "t0:" + ("zero" if s["t0"] == 0 else "nonzero")]
+    tags += ["history:" + case["family"], "t0:" + ("zero" if s["t0"] == 0 else "far" if s.get("far") else "nonzero")]
+    if s.get("replicates"):
+        tags.append("grid:replicate-times")
     models, rhs = [], None
     for m in case["models"]:
         model, rhs, err = LC.build_model(s)
@@ -454,7 +469,15 @@ def execute(case, judge, judged_fns):
                 # a form refused at construction is not judged (STRENGTHEN_GUIDE: tagged); with every argument in its
                 # default float form a refusal is a violation
                 nondefault = {a: b for a, b in spec["forms"].items() if b not in ("ndarray", "list", "float")}
-                if nondefault:
+                if type(exc).__name__ == "InputError" and ctx.traj([mref[spec["model"]][k_] for k_ in params], s["x0"]) is None:
+                    # the constructor integrates once with the values the (shared) model object holds at that moment; when the
+                    # reference itself does not exist for them (finite-time blow-up inside the horizon) the refusal is right
+                    tags.append("constructor-refuses:no-reference-solution-for-the-model's-current-values")
+                elif s.get("replicates") and type(exc).__name__ == "InputError":
+                    # unchanged pygom: the constructor's trial integrate2 re-chooses the integrator from the eigenvalues after every
+                    # step; when that is dopri5 the zero-length step between replicate times fails ("unable to integrate")
+                    tags.append("constructor-refuses:replicate-times:InputError")
+                elif nondefault:
                     tags.append("constructor-refuses:%s:%s" % (type(exc).__name__, "+".join(sorted("%s=%s" % ab for ab in nondefault.items()))))
                 else:
                     viol.append({"what": "%sLoss constructor raised %s: %s" % (spec["cls"], type(exc).__name__, str(exc)[:200]),
@@ -528,6 +551,12 @@ def execute(case, judge, judged_fns):
             tags.append("unjudged:reference-failed-or-outside-domain")
             continue
         where = "op %d of %s" % (i, json.dumps([(o.get("fn") or o["op"]) + ("" if o.get("arg", 0) is not None else "()") for o in case["ops"]]))
+        if s.get("replicates") and (type(exc_).__name__ == "IntegrationError" or
+                                    (isinstance(got, np.ndarray) and got.size and np.all(got == np.finfo(float).max))):
+            # unchanged pygom / scipy: the zero-length step between replicate times can be refused by the integrator (e.g. when the
+            # right-hand side is identically zero); `residual` turns the failure into an array of the largest float
+            tags.append("unjudged:replicate-times:integration-refused")
+            continue
         if exc_ is not None:
             viol.append({"what": "%s of %sLoss raised %s: %s" % (fn, spec["cls"], type(exc_).__name__, str(exc_)[:200]),
                          "signature": sig(fn, spec, "raises:" + type(exc_).__name__), "detail": where})
